@@ -6,6 +6,7 @@ const (
 	VerifTraceStored = iota
 	VerifTraceLoopNACK
 	VerifTraceWriterNACK
+	VerifTraceWithheld
 )
 
 // verifTrace and verifTraceSeqnos are trace points for builds with the
@@ -13,3 +14,5 @@ const (
 func verifTrace(track *rtpUpTrack, kind int, a, b uint16) {}
 
 func verifTraceSeqnos(track *rtpUpTrack, kind int, seqnos []uint16) {}
+
+func verifTraceDown(down *rtpDownTrack, kind int, a uint16) {}
